@@ -21,13 +21,13 @@ CHECKS = {
  "C07": dict(cat="fault_enumeration", tech="exhaustive crash-point enumeration: one run of each history (<=2/<=3 ops over 10) on a logging FS, every log prefix x write-back subsets x torn in-flight write replayed onto Pebble's strict MemFS, each distinct durable image recovered by the real open path and compared with the acknowledged / acknowledged+in-flight reference state",
    text="Every file-system operation issued during every short mutation history is a crash point; for each, all admissible durable images (nothing, each subset of dirty files/directories, torn write) are rebuilt and reopened with the real code; the recovered store must answer the whole query battery like the state before or after the in-flight call and its physical indexes must be consistent with its records; interrupted rebuilds (also multi-chunk, 1100 signatures) must keep every record and heal on a second rebuild.",
    note="Trusted: Pebble's strict MemFS as the crash model (per-file and per-directory sync granularity); Pebble's WAL/MANIFEST recovery is exercised for real but not explored inside. Database creation itself is outside (crash points start after the first open returned).", ref="3/C07"),
- "C18": dict(cat="exploration", tech="bounded-exhaustive enumeration: all signature lists <=3 over a pool + generated lists across the 1000-entry batch boundary, EVERY truncation offset of their JSON, a malformed menu, and all add/get histories <=3 on both back ends, on the real stores",
-   text="Every list within the bound is migrated into a fresh real database and exported, and compared field for field with its last-wins set; every byte-truncation of the small files (and every offset around batch boundaries of the large ones) must be an error or lossless; every add/batch-add/save-load history of up to three steps fetches every added ID back on both back ends. Exhaustive within the pools and bounds. The atomic-replace clause of SaveDatabase is covered by the save-atomicity unit when present (see DESIGN).",
+ "C18": dict(cat="exploration", tech="bounded-exhaustive enumeration: all signature lists <=3 over a pool + generated lists across the 1000-entry batch boundary, EVERY truncation offset of their JSON, a malformed menu, and all add/get histories <=3 on both back ends, on the real stores; SaveDatabase under a logging in-memory os shim: every crash point x durable-image variant, and all interleavings (preemption bound) of concurrent savers/loaders",
+   text="Every list within the bound is migrated into a fresh real database and exported, and compared field for field with its last-wins set; every byte-truncation of the small files (and every offset around batch boundaries of the large ones) must be an error or lossless; every add/batch-add/save-load history of up to three steps fetches every added ID back on both back ends. Exhaustive within the pools and bounds. The atomic-replace clause of SaveDatabase is decided by two further units: the save is run over a logging file system and at every crash point (x write-back subsets, torn writes) the target must decode to the old or the new signature set; two concurrent savers plus a loader are explored under the cooperative scheduler (os and sync replaced by yielding shims) and every load must see one complete saved set.",
    note="Trusted: comparison modulo nil/empty slices and nil/zero control-flow hints (gob/omitempty cannot represent the difference).", ref="3/C18"),
  "C11": dict(cat="model_checking", tech="stateless model checking of the real stores under a controlled cooperative scheduler (sync and pebble replaced by yielding shims through a generated overlay), iterative preemption bounding, differential oracle against sequential runs on frozen committed states; separate free-running -race pass",
    text="All interleavings (up to a preemption bound; unbounded for 1 reader x 1 writer in the thorough tier) of scan calls with writers that flip, delete/re-add, rebuild, reconfigure and mark signatures are executed on the real code; each reader result must equal the same call run alone on a store frozen in a committed state that existed during the call, and the final store must be index-consistent and equal to a serial order of the writer operations. Every trace is an implementation run. The data-race clause is covered by a free-running race-detector pass of the same bodies (sampling, labelled as such).",
    note="Trusted: Pebble's per-call linearizability and snapshot isolation; scheduling points only at synchronisation and database operations (unsynchronised accesses are the race pass's job).", ref="3/C11"),
- "C02": dict(cat="exploration", tech="bounded-exhaustive program family: 50 base functions x refactoring catalogue applied by AST rewriting at every site, at all sites, in every ordered pair and all together; native execution proves each refactoring behaviour-neutral; fingerprint equality on the real fingerprinter and sfw diff status",
+ "C02": dict(cat="exploration", tech="bounded-exhaustive program family: 57 base functions x refactoring catalogue applied by AST rewriting at every site, at all sites, in every ordered pair and all together; native execution proves each refactoring behaviour-neutral; fingerprint equality on the real fingerprinter and sfw diff status",
    text="Every applicable site of every catalogue refactoring (and every pairwise composition of whole-function refactorings) on every base function is fingerprinted with the real code under both literal policies and compared with the original; each variant is first compiled and executed on 576 inputs to prove it really is behaviour-neutral. Exhaustive over family x catalogue; nothing is sampled.",
    note="Trusted: the native Go toolchain as ground truth; the naming convention that decides where R6/R7 apply (every variant is type-checked and natively validated).", ref="3/C02"),
  "C03": dict(cat="exploration", tech="bounded-exhaustive program family x behaviour-changing edit catalogue at every site (mutation operators + hand-written invalid refactorings); native execution on 576 inputs establishes that the pair differs; fingerprints from the real fingerprinter under both policies must differ",
